@@ -755,13 +755,18 @@ func ruleCanAdd(rule string) ruleFn {
 			okc := false
 			for _, ea := range allAtoms(f, R) {
 				s := ea.Atom.String()
-				if strings.HasSuffix(s, "-1 >=0") && strings.Contains(s, "+strconv.ParseInt(") && strings.Contains(s, "-phi{") {
+				// the WO side is the count the WO replica reports now; the count it registered with at
+				// start-up may be used only under the WO address as the key (it then never applies:
+				// the registry is keyed by IP) — a registered count is stale for a rebuilding replica
+				live := fRepl + "GetRevisionCounter($0.backend,$1)#0"
+				if strings.HasSuffix(s, "-1 >=0") && strings.Contains(s, "+strconv.ParseInt(") &&
+					(strings.HasPrefix(s, "-"+live+" +strconv.ParseInt(") || strings.HasPrefix(s, "-phi{$0.RegisteredReplicas[$1].RevCount | "+live+"} +strconv.ParseInt(")) {
 					okc = true
 					c.Guard(rule, f, tr, "return true", nil, atom("new revision strictly greater", s))
 				}
 			}
 			if !okc {
-				c.Bad(rule, FnName(f)+" | strict comparison", "", "no strict `newRevCnt > woRevCnt` guard found for the true verdict", nil)
+				c.Bad(rule, FnName(f)+" | strict comparison", "", "no strict `newRevCnt > woRevCnt` guard against the WO replica's live revision count found for the true verdict", nil)
 			}
 		}
 		c.Floor(rule, 10)
@@ -1085,6 +1090,49 @@ func ruleC09(c *Ctx) {
 			c.OK(rule, FnName(fn)+" | clears the election state", c.P.Pos(fn.Pos()), "StartSignalled=false; MaxRevReplica=\"\"", false)
 		} else {
 			c.Bad(rule, FnName(fn)+" | clears the election state", c.P.Pos(fn.Pos()), "a failed start must clear StartSignalled and MaxRevReplica", nil)
+		}
+	}
+	// forgetting the leader forgets that it was signalled: wherever MaxRevReplica is cleared, every
+	// return reached afterwards has passed StartSignalled = false (or it was cleared just before)
+	for _, fn := range pkgFuncs(c.P, "controller") {
+		clr := storesOfConst(fn, "Controller", "MaxRevReplica", `""`)
+		if len(clr) == 0 {
+			continue
+		}
+		sig := storesOfConst(fn, "Controller", "StartSignalled", "false")
+		for i, st := range clr {
+			st := st
+			key := fmt.Sprintf("%s | MaxRevReplica cleared[%d] | StartSignalled cleared with it", FnName(fn), i)
+			// cleared before, in the same block
+			before := false
+			for _, x := range st.Block().Instrs {
+				if x == st {
+					break
+				}
+				for _, s2 := range sig {
+					if s2 == x {
+						before = true
+					}
+				}
+			}
+			if before {
+				c.OK(rule, key, c.P.InstrPos(st), "StartSignalled = false precedes it in the block", true)
+				continue
+			}
+			ws := Query{Fn: fn, Start: st, IsSite: func(in ssa.Instruction) bool { _, ok := in.(*ssa.Return); return ok },
+				Gen: func(in ssa.Instruction) bool {
+					for _, s2 := range sig {
+						if s2 == in {
+							return true
+						}
+					}
+					return false
+				}}.Run()
+			if len(ws) == 0 {
+				c.OK(rule, key, c.P.InstrPos(st), "every return after the store passes StartSignalled = false", true)
+			} else {
+				c.Bad(rule, key, c.P.InstrPos(st), "the leader is forgotten but StartSignalled stays true: the next registrant takes the 'signalled to start again' branch, which skips the majority check", c.witness(ws[0]))
+			}
 		}
 	}
 	c.Floor(rule, 26)
